@@ -63,3 +63,13 @@ Qed.
 
 Eval vm_compute in (map (fun p => name_of (p_from p)) (filter writes patches)).
 Eval vm_compute in (List.length classes, List.length patches, List.length savers, List.length loaders).
+
+(* registrations interleaved with saves: class 2 has MRO [2; 1].  Saved before it has a saver of its own it uses class 1's
+   newest; after (2, v1) is registered it uses its own; class 1 moves to v2 as soon as v2 is registered *)
+Example interleaved :
+  run_reg_ops [(1, [1]); (2, [2; 1])] [] []
+    [RegSaver 1 (Some 1) 10; DoSave 2; DoSave 1; RegSaver 1 (Some 2) 11; DoSave 1; DoSave 2; RegSaver 2 (Some 1) 12; DoSave 2;
+     RegSaver 3 (Some 2) 13; DoSave 3]
+  = [RReg RNone; RUsed 1 1 10; RUsed 1 1 10; RReg RNone; RUsed 1 2 11; RUsed 1 2 11; RReg RNone; RUsed 2 1 12;
+     RReg RKeyError; RRaises 1].
+Proof. vm_compute. reflexivity. Qed.
